@@ -24,8 +24,8 @@ import (
 	"verif/node"
 )
 
-func blockBytes(n *node.Node, h uint64) ([]byte, error) {
-	b, err := n.C.FSM.LoadBlock(h)
+func blockBytes(ch *node.Chain, i int, h uint64) ([]byte, error) {
+	b, err := ch.Block(i, h)
 	if err != nil {
 		return nil, err
 	}
@@ -169,13 +169,13 @@ func runCase(t *testing.T, run *core.Run, name string, idx int, rng *rand.Rand) 
 			run.Count("commits_"+path, 1)
 		}
 		// byte equality across nodes: indexed block (header, tx results, events) and full state
-		ref, e2 := blockBytes(ch.Nodes[0], h)
+		ref, e2 := blockBytes(ch, 0, h)
 		if e2 != nil {
 			t.Fatalf("%s: load block: %v", name, e2)
 		}
 		dump0, cnt, _ := node.DumpState(ch.Nodes[0].C.FSM.Store())
 		for i := 1; i < 3; i++ {
-			bz, e := blockBytes(ch.Nodes[i], h)
+			bz, e := blockBytes(ch, i, h)
 			if e != nil || !bytes.Equal(bz, ref) {
 				fail("indexed-block-differs-between-nodes", h, map[string]any{"node": i, "error": fmt.Sprint(e)})
 				return
@@ -201,8 +201,8 @@ func runCase(t *testing.T, run *core.Run, name string, idx int, rng *rand.Rand) 
 			fail("commit-failed path=sync-replay", rec.Height, map[string]any{"error": e.Error()})
 			return
 		}
-		a, _ := blockBytes(ch.Nodes[0], rec.Height)
-		bz, _ := blockBytes(ch.Nodes[j], rec.Height)
+		a, _ := blockBytes(ch, 0, rec.Height)
+		bz, _ := blockBytes(ch, j, rec.Height)
 		if !bytes.Equal(a, bz) {
 			fail("indexed-block-differs-between-nodes", rec.Height, map[string]any{"node": "late-joiner"})
 			return
